@@ -201,7 +201,21 @@ def base : List Schema :=
 /-- rules whose side condition mentions the reported width of an operand, and the n-ary sum rule -/
 def widthy : List Schema := [sub_self, xor_self, lshr_zext, ashr_zext, sub_addN]
 
-def all : List Schema := base ++ widthy
+/-! #### comparing an `If` over two different literals with one of them (eq_simplifier / ne_simplifier) -/
+def iteLits (p : P) : Expr := .app .ite [p.c, .bvv p.c1 p.w, .bvv p.c2 p.w]
+def litsDiffer (p : P) : Bool := decide (p.c1 % 2 ^ p.w ≠ p.c2 % 2 ^ p.w)
+/-- `If(c, k1, k2) == k1 ⇒ c` -/
+def eq_ite_then : Schema := { name := "E13.eq_ite_then", lhs := fun p => .app .eq [iteLits p, .bvv p.c1 p.w], rhs := fun p => p.c, side := litsDiffer }
+/-- `If(c, k1, k2) == k2 ⇒ !c` -/
+def eq_ite_else : Schema := { name := "E13.eq_ite_else", lhs := fun p => .app .eq [iteLits p, .bvv p.c2 p.w], rhs := fun p => .app .not [p.c], side := litsDiffer }
+/-- `If(c, k1, k2) != k2 ⇒ c` -/
+def ne_ite_else : Schema := { name := "N13.ne_ite_else", lhs := fun p => .app .ne [iteLits p, .bvv p.c2 p.w], rhs := fun p => p.c, side := litsDiffer }
+/-- `If(c, k1, k2) != k1 ⇒ !c` -/
+def ne_ite_then : Schema := { name := "N13.ne_ite_then", lhs := fun p => .app .ne [iteLits p, .bvv p.c1 p.w], rhs := fun p => .app .not [p.c], side := litsDiffer }
+
+def iteCmp : List Schema := [eq_ite_then, eq_ite_else, ne_ite_else, ne_ite_then]
+
+def all : List Schema := base ++ widthy ++ iteCmp
 
 /-- schemas transcribed from the code whose soundness theorem is not proved yet (used for matching only) -/
 def unproved : List Schema := [eq_rev, rev_rev]
@@ -253,6 +267,7 @@ def proposals (t : Expr) : List P :=
          (match xs.getLast?, xs.dropLast with
           | some (.bvv v1 _), init => [{ xs := init, c1 := v1, c2 := v, w := w }]
           | _, _ => [])
+       | .app .ite [c0, .bvv k1 w, .bvv k2 _], some _ => [{ c := c0, c1 := k1, c2 := k2, w := w }]
        | _, _ => [])
     base ++ withConst ++ nested ++ widthy
   | .app _ [c, a, b] =>
